@@ -18,7 +18,7 @@ func CompileToGetDecoder(typ *runtime.Type) (Decoder, error) {
 	}
 
 	index := (typeptr - typeAddr.BaseTypeAddr) >> typeAddr.AddrShift
-	if dec := cachedDecoder[index]; dec != nil {
+	if dec := loadCachedDecoder(index); dec != nil {
 		verifCacheReturn("fast-hit", typeptr, index, dec)
 		return dec, nil
 	}
@@ -29,7 +29,7 @@ func CompileToGetDecoder(typ *runtime.Type) (Decoder, error) {
 		return nil, err
 	}
 	verifCacheGate("publish", typeptr)
-	cachedDecoder[index] = dec
+	storeCachedDecoder(index, dec)
 	verifCacheReturn("fast-compiled", typeptr, index, dec)
 	return dec, nil
 }
